@@ -283,6 +283,7 @@ impl Part {
         f: &dyn Fn(&V, &mut CaseInfo) -> Result<(), Failure>,
     ) -> bool {
         let mut info = CaseInfo::default();
+        note_current_case(&self.property, &self.sub, v);
         let r = f(v, &mut info);
         let d = digest_json(v);
         self.account(d, info);
@@ -325,8 +326,10 @@ impl Part {
         let mut runner = TestRunner::new_with_rng(config, rng);
         let failed = RefCell::new(false);
         let me = RefCell::new(self);
+        let (prop_name, sub_name) = (me.borrow().property.clone(), me.borrow().sub.clone());
         let result = runner.run(&strat, |v| {
             let mut info = CaseInfo::default();
+            note_current_case(&prop_name, &sub_name, &v);
             let r = f(&v, &mut info);
             let shrinking = *failed.borrow();
             let mut me = me.borrow_mut();
@@ -409,6 +412,30 @@ impl Part {
             "wall_s": self.started.elapsed().as_secs_f64(),
         })
     }
+}
+
+/// Crash attribution: with VERIF_CURRENT_CASE=<path> the engine writes the case it is about to run (as a
+/// replay file) to that path, so that `check` can tell which input killed the process when a case takes
+/// the whole engine down (a stack overflow or an abort cannot be caught in-process).
+pub fn note_current_case<V: Serialize>(property: &str, sub: &str, v: &V) {
+    use std::io::{Seek, SeekFrom, Write};
+    thread_local! {
+        static FILE: RefCell<Option<Option<std::fs::File>>> = RefCell::new(None);
+    }
+    FILE.with(|f| {
+        let mut f = f.borrow_mut();
+        if f.is_none() {
+            *f = Some(std::env::var("VERIF_CURRENT_CASE").ok().and_then(|p| std::fs::OpenOptions::new().create(true).write(true).truncate(true).open(p).ok()));
+        }
+        if let Some(Some(file)) = f.as_mut() {
+            let rf = json!({"property": property, "sub": sub, "key": "engine-crash", "desc": "the engine process died while running this case", "case": v});
+            if let Ok(bytes) = serde_json::to_vec(&rf) {
+                let _ = file.seek(SeekFrom::Start(0));
+                let _ = file.write_all(&bytes);
+                let _ = file.set_len(bytes.len() as u64);
+            }
+        }
+    });
 }
 
 /// Replay file format
